@@ -49,6 +49,8 @@ SRC = "exetera/core/operations.py"
 # kernel -> positional parameter types (the Python source is untyped; numba infers these from the call sites).
 #   int | bool | arr (integer array / typed list) | barr (boolean array) | opt_arr (array or None) |
 #   arr2 (2-D integer array: the list of its rows; `a[k]` is row k, `for row in a`, `len(a)` the number of rows)
+#   arr2w (a 2-D integer array whose subscripts follow numpy's WRAP-AROUND of a negative index, `-len ≤ i < 0` is `len + i`:
+#          `fast_csv_reader` reads `column_inds[col_index, -1]` while it is on the header line)
 WHITELIST = [
     ("apply_spans_count", ["arr", "opt_arr"]),
     ("apply_spans_first", ["arr", "arr", "opt_arr"]),
@@ -103,12 +105,17 @@ WHITELIST = [
     ("safe_map_values", ["arr", "arr", "barr", "opt_int"]),
     ("ordered_inner_map_left_unique", ["arr", "arr", "arr", "arr"]),
     ("ordered_inner_map", ["arr", "arr", "arr", "arr"]),
+    # KT4A  (a third component gives per-kernel options: "src" = the source file of the kernel when it is not SRC)
+    ("fast_csv_reader", ["arr", "int", "arr2w", "arr", "arr", "bool", "int", "int", "int", "int"],
+     {"src": "exetera/core/csv_reader_speedup.py"}),
+    ("transform_to_values", ["arr2", "arr", "arr", "int", "int"]),
 ]
 
 LEAN_T = {"int": "Int", "bool": "Bool", "arr": "List Int", "barr": "List Bool", "opt_arr": "Option (List Int)",
-          "arr2": "List (List Int)", "opt_int": "Option Int"}
-DEFAULT = {"int": "0", "bool": "false", "arr": "[]", "barr": "[]", "arr2": "[]"}
+          "arr2": "List (List Int)", "opt_int": "Option Int", "arr2w": "List (List Int)"}
+DEFAULT = {"int": "0", "bool": "false", "arr": "[]", "barr": "[]", "arr2": "[]", "arr2w": "[]"}
 ELEM = {"arr": "int", "barr": "bool", "arr2": "arr"}        # arr2: a 2-D integer array, passed as the list of its rows
+ELEM["arr2w"] = "arr"
 
 
 class Unsupported(Exception):
@@ -235,6 +242,7 @@ class Kernel:
         self.tmp = 0
         self.defs = []
         self.ret_type = None
+        self.arr2_locals = set()     # locals that are lists of arrays (`x = []` … `x.append(array)`)
 
     # ------------------------------------------------------------------------------------------------------------
     # canonical names
@@ -288,6 +296,22 @@ class Kernel:
         returned = returned or set()
         self.mutated = sorted((p for p in stored if p not in returned), key=lambda x: int(x[1:]))
 
+    def only_empty_init(self, v):
+        """the local `v` is bound by `v = []` only (then the element type of the list is that of what is appended)"""
+        if v not in self.locals:
+            return False
+        ok = False
+        for b in self.body:
+            for n in ordered_nodes(b):
+                if isinstance(n, ast.Name) and n.id == v and isinstance(n.ctx, ast.Store):
+                    ok = None if ok is None else True
+                if isinstance(n, (ast.For, ast.AugAssign)) and isinstance(n.target, ast.Name) and n.target.id == v:
+                    return False
+                if isinstance(n, ast.Assign) and any(isinstance(t, ast.Name) and t.id == v for t in n.targets) and \
+                        not (len(n.targets) == 1 and isinstance(n.value, ast.List) and not n.value.elts):
+                    return False
+        return bool(ok)
+
     def opt_params_static(self):
         return {f"p{k}" for k, t in enumerate(self.ptypes) if t == "opt_arr"}
 
@@ -323,6 +347,11 @@ class Kernel:
                     mark(st.orelse, stack)
         mark(self.body, [])
         self.loop_return = any(v[3] for v in self.loops.values())
+
+    def is_forever(self, st):
+        """`while True:` without a `break` of its own and with a `return` inside"""
+        return isinstance(st, ast.While) and isinstance(st.test, ast.Constant) and st.test.value is True and \
+            not self.loops[id(st)][1] and self.loops[id(st)][3]
 
     @staticmethod
     def has_while(stmts):
@@ -479,12 +508,32 @@ class Kernel:
             if t not in ELEM:
                 raise Unsupported(f".shape of a {t}")
             return "int", f"(pyLen {x})", b
+        if isinstance(n, ast.Subscript) and isinstance(n.value, ast.Attribute) and n.value.attr == "shape" and \
+                isinstance(n.slice, ast.Constant) and n.slice.value == 1:
+            t, x, b = self.expr(n.value.value, defined)             # `a.shape[1]` of a 2-D array: the length of its rows
+            if t not in ("arr2", "arr2w"):                          # (IndexError-class error for an array without rows: the
+                raise Unsupported(f".shape[1] of a {t}")            #  list of rows does not carry the second dimension then)
+            tmp = self.fresh()
+            return "int", tmp, b + [(tmp, f"shape1E {x} {lean_str(ast.unparse(n))}")]
         if isinstance(n, ast.Subscript):
             tb_, xb_, bb_ = self.expr(n.value, defined)
             if tb_ not in ELEM:
                 raise Unsupported(f"subscript of a {tb_}")
             site = lean_str(ast.unparse(n))
             sl = n.slice
+            if tb_ == "arr2w" and isinstance(sl, ast.Tuple) and len(sl.elts) == 2:
+                # `a[i, j]` with numpy's wrap-around of a negative index, in both dimensions
+                (ti, xi, bi), (tj, xj, bj) = self.expr(sl.elts[0], defined), self.expr(sl.elts[1], defined)
+                if ti != "int" or tj != "int":
+                    raise Unsupported("2-D subscript with a non-integer index")
+                row, tmp = self.fresh(), self.fresh()
+                return "int", tmp, bb_ + bi + bj + [(row, f"idxWE {xb_} {xi} {site}"), (tmp, f"idxWE {row} {xj} {site}")]
+            if tb_ == "arr2w" and not isinstance(sl, (ast.Slice, ast.Tuple)) and self.neg_const(sl) is None:
+                ti, xi, bi = self.expr(sl, defined)
+                if ti != "int":
+                    raise Unsupported(f"subscript with an index of type {ti}")
+                tmp = self.fresh()
+                return "arr", tmp, bb_ + bi + [(tmp, f"idxWE {xb_} {xi} {site}")]
             if isinstance(sl, ast.Slice):
                 if sl.step is not None:
                     raise Unsupported("slice with a step")
@@ -667,6 +716,8 @@ class Kernel:
                 raise Unsupported("chained assignment")
             tg = st.targets[0]
             t, x, b = self.expr(st.value, defined)
+            if isinstance(tg, ast.Name) and tg.id in self.arr2_locals and isinstance(st.value, ast.List) and not st.value.elts:
+                t = "arr2"                                          # `[]` of a list of arrays (see `append`)
             if isinstance(tg, ast.Name):
                 line = self.assign_name(tg.id, t, x)
                 return self.wrap(b, line).split("\n"), defined | {tg.id}, False
@@ -693,6 +744,14 @@ class Kernel:
                             b = b + bi
                             bounds.append(f"(some {xi})")
                     b = b + [(tmp, f"setSliceE {xb_} {bounds[0]} {bounds[1]} {x}")]
+                elif isinstance(tg.slice, ast.Tuple):
+                    # `a[i, j] = v` on a 2-D array (the list of its rows): row `i`, then entry `j`, both checked
+                    if tb_ not in ("arr2", "arr2w") or len(tg.slice.elts) != 2 or t != "int":
+                        raise Unsupported(f"tuple-subscript store of a {t} into a {tb_}")
+                    (ti, xi, bi), (tj, xj, bj) = self.expr(tg.slice.elts[0], defined), self.expr(tg.slice.elts[1], defined)
+                    if ti != "int" or tj != "int":
+                        raise Unsupported("2-D subscript with a non-integer index")
+                    b = b + bi + bj + [(tmp, f"{'setIdx2WE' if tb_ == 'arr2w' else 'setIdx2E'} {xb_} {xi} {xj} {x} {site}")]
                 elif self.neg_const(tg.slice) is not None:
                     if t != ELEM[tb_]:
                         raise Unsupported(f"store of a {t} into a {tb_}")
@@ -718,6 +777,12 @@ class Kernel:
                 ta, xa, ba = self.var(a, defined)
                 t, x, b = self.expr(c.args[0], defined)
                 want = ELEM.get(ta) if c.func.attr == "append" else ta
+                if ta == "arr" and t == "arr" and c.func.attr == "append" and self.only_empty_init(a):
+                    # a list that starts as `[]` and receives ARRAYS: a list of arrays (rendered like a 2-D array, the list
+                    # of its rows); the type is fixed now and the rendering pass restarted
+                    self.arr2_locals.add(a)
+                    self.env[a] = "arr2"
+                    raise Untyped(a)
                 if ta not in ELEM or t != want or ba:
                     raise Unsupported(f"{c.func.attr} of a {t} to a {ta}")
                 rhs = f"({xa} ++ [{x}])" if c.func.attr == "append" else f"({xa} ++ {x})"
@@ -730,6 +795,8 @@ class Kernel:
                 return [f".error (.oob {lean_str('raise IndexError')})"], defined, True
             if name == "ValueError":
                 return [f".error (.valueError {lean_str('raise ValueError')})"], defined, True
+            if name == "Exception":
+                return [f".error (.other {lean_str('Exception')})"], defined, True
             raise Unsupported(f"raise {name}")
         raise Unsupported(f"statement {type(st).__name__}")
 
@@ -927,6 +994,10 @@ class Kernel:
             if body[-1].value is None:
                 raise Unsupported("return without a value")
             ret = body.pop()
+        elif body and self.is_forever(body[-1]):
+            # the function ends in `while True:` that is only left by `return` (no `break`): nothing follows the loop; the
+            # loop combinator can only hand back a state whose `ret` flag is raised, the other branch is an explicit error
+            ret = None
         else:
             # the function falls off its end (returns None): its result is what it stored into its array parameters
             if any(isinstance(n, ast.Return) for b in body for n in ordered_nodes(b)):
@@ -936,7 +1007,9 @@ class Kernel:
             ret = ast.Return(value=ast.Tuple(elts=[], ctx=ast.Load()))
         defined = {f"p{k}" for k in range(len(self.ptypes))}
         self.ret_types = None
-        main, d = self.block(body, defined, None, top=True, final=lambda d: self.ret_final(ret, d))
+        unreachable = f".error (.other {lean_str('while True left without return')})"
+        main, d = self.block(body, defined, None, top=True,
+                             final=(lambda d: self.ret_final(ret, d)) if ret is not None else (lambda d: unreachable))
         rtype = LEAN_T[self.ret_types[0]] if len(self.ret_types) == 1 else \
             "(" + " × ".join(LEAN_T[t] for t in self.ret_types) + ")"
         missing = [v for v in self.locals if v not in self.env]
@@ -1027,8 +1100,8 @@ class Kernel:
     def dispatch_arm(self):
         n = len(self.ptypes)
         conv = {"int": "asInt?", "bool": "asBool?", "arr": "asArr?", "barr": "asBArr?", "opt_arr": "asOptArr?",
-                "arr2": "asArr2?", "opt_int": "asOptInt?"}
-        mk = {"int": "Val.int", "bool": "Val.bool", "arr": "Val.arr", "barr": "Val.barr", "arr2": "Val.arr2"}
+                "arr2": "asArr2?", "opt_int": "asOptInt?", "arr2w": "asArr2?"}
+        mk = {"int": "Val.int", "bool": "Val.bool", "arr": "Val.arr", "barr": "Val.barr", "arr2": "Val.arr2", "arr2w": "Val.arr2"}
         pats = ", ".join(f"a{k}" for k in range(n))
         scrut = ", ".join(f"a{k}.{conv[t]}" for k, t in enumerate(self.ptypes))
         somes = ", ".join(f"some x{k}" for k in range(n))
@@ -1049,13 +1122,24 @@ class Kernel:
 
 def translate_all(repo):
     """→ (lean text, [(kernel, reason)] of kernels that could not be translated)"""
-    tree = ast.parse((Path(repo) / SRC).read_text())
-    fns = {n.name: n for n in tree.body if isinstance(n, ast.FunctionDef)}
+    trees = {}
+
+    def functions_of(src):
+        if src not in trees:
+            try:
+                tree = ast.parse((Path(repo) / src).read_text())
+            except OSError:
+                raise Unsupported("source file not found: " + src)
+            trees[src] = {n.name: n for n in tree.body if isinstance(n, ast.FunctionDef)}
+        return trees[src]
     done, failed = [], []
-    for name, ptypes in WHITELIST:
+    for entry in WHITELIST:
+        name, ptypes = entry[0], entry[1]
+        src = (entry[2] if len(entry) > 2 else {}).get("src", SRC)
         try:
+            fns = functions_of(src)
             if name not in fns:
-                raise Unsupported("function not found in " + SRC)
+                raise Unsupported("function not found in " + src)
             if not is_njit(fns[name]):
                 raise Unsupported("function is not decorated @exetera_njit")
             k = Kernel(fns[name], ptypes)
